@@ -138,6 +138,7 @@ Definition c10_class (be : backend) (sp : spec) (o : dbop) : N :=
       if existsb (fun n => 255 <? len n) (prim ++ alt) then 6
       else if is_get o && existsb (fun a => negb (no_legacy_clash a)) alt then 1
       else if bin && negb (b64_slash_free k) then 2
+      else if existsb (fun n => negb (name_plain n)) (prim ++ alt) then 7
       else 0
     | ODump p =>
       if bin then 3
